@@ -147,9 +147,9 @@ Proof.
     assert (Hocc : occupying (wk s) = [j]) by (rewrite Hwk; reflexivity).
     assert (Hst : In j (started s)). { eapply Permutation_in; [symmetry; exact HS|]. rewrite Hocc. now left. }
     assert (Hsub : In j (subm s)). { apply (no_job_starts_twice 1 Q s Hr). exact Hst. }
-    assert (Hchk : forallb (fun sn : job * list job => negb (N.eqb (fst sn) j) || forallb (fun a => mem a (f_started φ)) (snd sn)) (f_snaps φ) = true).
+    assert (Hchk : forallb (fun sn : job * list job => if N.eqb (fst sn) j then forallb (fun a => mem a (f_started φ)) (snd sn) else true) (f_snaps φ) = true).
     { apply forallb_forall. intros [b B] Hin. cbn [fst snd]. destruct (N.eqb b j) eqn:E; [|reflexivity]. apply N.eqb_eq in E. subst b.
-      cbn [negb orb]. apply forallb_forall. intros a Ha. apply mem_In. apply G2.
+      apply forallb_forall. intros a Ha. apply mem_In. apply G2.
       destruct (G3 _ _ _ Hin Ha) as [_ [X|X]]; [exfalso; eapply calling_not_subm; eauto|].
       pose proof (sent_before_started_before 1 Q s a j Hr X Hst) as Has.
       assert (Hne : a <> j). { intros ->. destruct X as [X _]. lia. }
